@@ -40,9 +40,19 @@ META = {
 
 MC = {
     "quick": ["MC_quick_grow", "MC_quick_zones"],
-    "thorough": ["MC_quick_grow", "MC_quick_free", "MC_quick_zones", "MC_thorough_three", "MC_thorough_full"],
+    "thorough": ["MC_quick_grow", "MC_quick_free", "MC_quick_zones", "MC_thorough_zones", "MC_thorough_three"],
 }
-ACTIONS = ["PureCall", "Join", "Lose", "Leave", "Observe", "CanJoin", "AddPartition", "Family", "Construct"]
+# development aid on a shared machine: VERIF_TLC_WORKERS=4 bin/check C16 (default: all cores)
+WORKERS = int(os.environ.get("VERIF_TLC_WORKERS", "0")) or None
+ACTIONS = ["PureCall", "Join", "Lose", "Leave", "Observe", "CanJoinObs", "AddPartition", "Family", "Construct"]
+
+
+def _zero_actions(log):
+    """actions with zero coverage in the LAST coverage dump of a TLC run (interim dumps list not-yet-taken actions)"""
+    k = log.rfind("The coverage statistics at")
+    if k < 0:
+        return set(ACTIONS)
+    return set(re.findall(r"^<(\w+) line [^>]*>: 0:0$", log[k:], re.M))
 
 
 def _event_of(path, lineno):
@@ -144,21 +154,29 @@ def run(ctx):
 
     # 1. the property on the specification, exhaustively
     zero = set(ACTIONS)
-    for cfg in MC[ctx.tier]:
+    skip_mc = bool(os.environ.get("VERIF_C16_SKIP_MC"))      # development aid (mutation runs): trace validation only
+    for cfg in ([] if skip_mc else MC[ctx.tier]):
         r = ctx.tlc("tokengen", "TokenGen", cfg=cfg + ".cfg", timeout=1500 if thorough else 600,
-                    coverage=thorough, deadlock=False)
+                    coverage=thorough, deadlock=False, workers=WORKERS)
         ctx.require_tlc_ok(r, cfg)
         if r.distinct == 0:
             raise verif.Inconclusive("%s explored nothing" % cfg)
         if thorough:
-            zero &= set(r.coverage_zero)
-    if thorough and zero:
+            zero &= _zero_actions(r.log)
+    if not skip_mc:
+        # the random generator's algorithm (rejection sampling + sort) in a dense 6-token space: contract on return, termination
+        cfg = "MC_algo_thorough" if thorough else "MC_algo_quick"
+        r = ctx.tlc("tokengen", "RandomGenAlgo", cfg=cfg + ".cfg", timeout=900, workers=WORKERS)
+        ctx.require_tlc_ok(r, cfg)
+    if thorough and zero and not skip_mc:
         raise verif.Inconclusive("actions never taken in any exhaustive config (vacuity): %s" % sorted(zero))
-    ctx.exhaustive = True
+    ctx.exhaustive = not skip_mc
+    if skip_mc:
+        ctx.extra["skipped_model_checking"] = True
 
     # 2. record what the real code does, 3. validate it against the specification
     res, files = _record(ctx, "a")
-    nworkers = min(len(files), 6)
+    nworkers = min(len(files), WORKERS or 6)
     r = _validate(ctx, files, nworkers, 1700 if thorough else 600)
     if r.timed_out or r.error:
         ctx.require_tlc_ok(r, "trace validation")
